@@ -44,6 +44,8 @@ def strategy_(draw):
         'deco': draw(st.sampled_from(['', ',1', '=2', '[3]', '(4)', "'5", ';6', ':7', '"8'])),
         'log_file': draw(st.booleans()),
         'nested': draw(st.booleans()),
+        # how the caller spells the input paths: canonical, with a doubled separator, with a '/./' component
+        'spelling': draw(st.sampled_from(['plain', 'plain', 'plain', 'double_slash', 'dot', 'trailing_dir_slash'])),
     }
     spec['layout'] = lay
     spec['fail'] = draw(st.sampled_from(FAILS))
@@ -164,6 +166,13 @@ def one_run(base, spec, cloud_safe, tag):
     if fail == 'bad_normalization':
         cfg['normalization'] = 'rawr'
     paths = {'stats': stats, 'query': query, 'markers': markers}
+    sp = lay.get('spelling', 'plain')
+    if sp != 'plain':
+        def respell(p):
+            p = pathlib.Path(p)
+            sep = {'double_slash': '//', 'dot': '/./', 'trailing_dir_slash': '//'}[sp]
+            return str(p.parent) + sep + p.name
+        paths = {k: respell(v) for k, v in paths.items()}
     plan = None
     if fail == 'worker_fault':
         plan = {0: {'fault': 'exit', 'point': 'before'}}
